@@ -84,7 +84,7 @@ PROPS = {
             'mc': [{'module': 'Latch', 'cfg': 'MC_Latch.cfg', 'constants': {'READLATCH': 'TRUE'}, 'quick': {}, 'thorough': {}, 'deadlock': True},
                    {'module': 'Latch', 'cfg': 'MC_Latch.cfg', 'constants': {'READLATCH': 'TRUE'}, 'quick': {}, 'thorough': {}, 'deadlock': True, 'asbuilt': True},
                    {'module': 'Latch', 'cfg': 'MC_Latch.cfg', 'constants': {'READLATCH': 'FALSE'}, 'quick': {}, 'thorough': {}, 'deadlock': True, 'expect_violation': True}],
-            'trace': {'module': 'LatchTrace', 'cfg': 'LatchTrace.cfg'},
+            'trace': {'module': 'LatchTrace', 'cfg': 'LatchTrace.cfg', 'heap': '8g'},
             # inductive invariant of the latch protocol for any number of versions (Apalache); negative control: RLock without its guard
             'apalache': [{'module': 'LatchInd', 'quick': True,
                           'steps': [['--cinit=CInit', '--init=Init', '--inv=IndInv', '--length=0'],
